@@ -28,6 +28,10 @@ FUNCS = {
     'sasa_atom': 'exact', 'sasa_residue': 'exact', 'dssp': 'exact', 'dssp_full': 'exact', 'kabsch_sander': 'exact', 'wernet_nilsson': 'exact',
     'neighbors': 'exact', 'neighborlist': 'exact', 'contacts_ca': 'exact', 'contacts_closest': 'exact', 'drid': 'exact',
     'rg': 'tol', 'com': 'tol', 'gyration': 'tol', 'inertia': 'tol', 'principal_moments': 'tol',
+    'rg_masses': 'tol', 'cog': 'tol', 'asphericity': 'tol', 'acylindricity': 'tol', 'shape_anisotropy': 'tol',
+    'nematic_order': 'tol', 'directors': 'tol', 'density': 'tol', 'dipole_moments': 'tol',
+    'angles_pbc': 'exact', 'dihedrals_pbc': 'exact', 'displacements_pbc': 'exact', 'distances_pbc_np': 'exact',
+    'contacts_closest_heavy': 'exact', 'contacts_sidechain': 'exact', 'closest_contact': 'exact', 'omega': 'exact',
     'rmsf': 'threads_only',
 }
 FUNC_WEIGHTS = [(k, 3 if k.startswith(('sasa', 'rmsd', 'center', 'superpose', 'lprmsd', 'drid', 'neighborlist')) else 2) for k in sorted(FUNCS)]
@@ -125,9 +129,14 @@ def make_traj(md, case):
     L = A = None
     if case['cell']:
         ext = float(np.abs(xyz).max()) * 2 + 2.0
+        if case['seed'] % 2 == 0:
+            ext = max(1.0, float(np.ptp(xyz.reshape(-1, 3), axis=0).max()) * 0.6)      # smaller than the fragment: minimum-image shifts happen
         L = np.tile(np.array([ext, ext * 1.1, ext * 1.2], dtype=np.float32), (case['n_frames'], 1))
         L = L * (1.0 + 0.01 * np.arange(case['n_frames']))[:, None].astype(np.float32)
         A = np.tile(np.array([90.0, 90.0, 90.0], dtype=np.float32), (case['n_frames'], 1))
+        if case['seed'] % 3 == 0:
+            A = np.tile(np.array([80.0, 95.0, 105.0], dtype=np.float32), (case['n_frames'], 1))
+            A[:, 0] += (np.arange(case['n_frames']) % 4).astype(np.float32)
     return {'xyz': xyz.astype(np.float32), 'top': t.topology, 'L': L, 'A': A}
 
 
@@ -214,6 +223,43 @@ def evaluate(md, name, w, idx, fseed):
         out = md.compute_contacts(t, 'all', scheme='closest', periodic=False)[0]
     elif name == 'drid':
         out = md.compute_drid(t)
+    elif name == 'rg_masses':
+        out = md.compute_rg(t, masses=np.array([a.element.mass for a in t.topology.atoms]))
+    elif name == 'cog':
+        out = md.compute_center_of_geometry(t)
+    elif name == 'asphericity':
+        out = md.asphericity(t)
+    elif name == 'acylindricity':
+        out = md.acylindricity(t)
+    elif name == 'shape_anisotropy':
+        out = md.relative_shape_anisotropy(t)
+    elif name == 'nematic_order':
+        out = md.compute_nematic_order(t, indices='residues')
+    elif name == 'directors':
+        out = md.compute_directors(t, indices='residues')
+    elif name == 'density':
+        if w['L'] is None:
+            raise ValueError('density needs a unit cell')
+        out = md.density(t)
+    elif name == 'dipole_moments':
+        out = md.geometry.dipole_moments(t, np.linspace(-0.5, 0.5, n))
+    elif name == 'angles_pbc':
+        out = md.compute_angles(t, _pairs(n, fseed, 5, 3), periodic=True)
+    elif name == 'dihedrals_pbc':
+        out = md.compute_dihedrals(t, _pairs(n, fseed, 5, 4), periodic=True)
+    elif name == 'displacements_pbc':
+        out = md.compute_displacements(t, _pairs(n, fseed), periodic=True)
+    elif name == 'distances_pbc_np':
+        out = md.compute_distances(t, _pairs(n, fseed), periodic=True, opt=False)
+    elif name == 'contacts_closest_heavy':
+        out = md.compute_contacts(t, 'all', scheme='closest-heavy', periodic=w['L'] is not None)[0]
+    elif name == 'contacts_sidechain':
+        out = md.compute_contacts(t, 'all', scheme='sidechain', periodic=False)[0]
+    elif name == 'closest_contact':
+        half = max(1, n // 2)
+        out = [np.array(md.geometry.distance.find_closest_contact(t, np.arange(half), np.arange(half, n), frame=k, periodic=False)[2]) for k in range(t.n_frames)]
+    elif name == 'omega':
+        out = md.compute_omega(t, periodic=False)[1]
     elif name == 'rg':
         out = md.compute_rg(t)
     elif name == 'com':
